@@ -54,7 +54,12 @@ def task(t):
                     else:
                         rho_ok = T.zabs(D) >= T.Q(2 * tol.EPS) * (1 + T.zabs(b.term))
                         hyp = hyp + [rho_ok]
-                        goal = T.zabs(r.term - Tt) * T.zabs(D) <= T.Q(tol.KDEC) * (T.Q(tol.EPS) * T.zabs(D) + T.zabs(Tt) * T.Q(tol.EPS) * (1 + T.zabs(b.term)))
+                        # relative precision of the divisor in the dividend's unit (conversion of b) or of both operands
+                        # in reference units (an implementation may equally well form (a*sa)/(b*sb)): eps/|a sa| + eps/|b sb|
+                        A_, B_ = a.term * T.Q(sa), b.term * T.Q(sb)
+                        hyp = hyp + [T.zabs(B_) >= T.Q(2 * tol.EPS)]
+                        # |r - T| <= K eps (1 + |T| ((1+|b|)/|D| + 1/|A| + 1/|B|)), multiplied by B^2 (T B = A, D = B/sa): no division left
+                        goal = T.zabs(r.term * B_ - A_) * T.zabs(B_) <= T.Q(tol.KDEC * tol.EPS) * (B_ * B_ + T.zabs(A_) * T.Q(sa) * (1 + T.zabs(b.term)) + T.zabs(B_) + T.zabs(A_))
                 else:
                     unit = run.unit_of(o.state, q, o.value)
                     R.oblig(pair + " unit", unit == ua, False)
@@ -134,7 +139,10 @@ def oracle(c, out, scales):
         else:
             if abs(D) < 2 * tol.EPS * (1 + abs(F(b))):
                 return None, "divisor below resolution"
-            ok = abs(F(r) - Tt) * abs(D) <= tol.KDEC * (tol.EPS * abs(D) + abs(Tt) * tol.EPS * (1 + abs(F(b))))
+            A_, B_ = F(a) * sa, F(b) * sb
+            if abs(B_) < 2 * tol.EPS:
+                return None, "divisor below resolution in reference units"
+            ok = abs(F(r) * B_ - A_) * abs(B_) <= tol.KDEC * tol.EPS * (B_ * B_ + abs(A_) * sa * (1 + abs(F(b))) + abs(B_) + abs(A_))
         return (not ok), "(%s %s) / (%s %s) = %s, exact %.17g" % (a, ua, b, ub, r, float(Tt))
     if unit != ua:
         return True, "result unit %s, left operand unit %s" % (unit, ua)
